@@ -38,7 +38,9 @@ type FixedQueue struct {
 // iterating through.
 func NewFixed(resp []*gpb.SubscribeResponse, delay bool) *FixedQueue {
 	return &FixedQueue{
-		resp:       resp,
+		// Cap the slice so that Add reallocates instead of writing into the
+		// caller's backing array.
+		resp:       resp[:len(resp):len(resp)],
 		checkDelay: delay,
 	}
 }
